@@ -38,9 +38,36 @@ def full_poly_snap(g):
             "index": [key(v.id) for v in g.index], "dtype": str(np.asarray(g).dtype)}
 
 
+def var_sig(v):
+    """what a variable object IS: its class and every instance attribute (applications subclass puan.variable and hang data
+    on their items; the configurator itself tags propositions with `prio`)"""
+    return [key(v.id), type(v).__module__ + "." + type(v).__qualname__, sorted((k, repr(x)) for k, x in vars(v).items())]
+
+
+def var_sigs(o):
+    out = []
+    def walk(x):
+        if isinstance(x, pg.AtLeast):
+            out.append(["own"] + var_sig(x.variable))
+            for p in x.propositions:
+                walk(p)
+        else:
+            out.append(["leaf"] + var_sig(x))
+    walk(o)
+    return out
+
+
 def do_case(ctx, inp):
     a = inp["ast"]
     o = build(a)
+    if inp.get("leaf_prio") and not is_var(o):
+        # an item that carries a priority tag of its own (the attribute the configurator's default priorities read)
+        def tag(x):
+            if isinstance(x, pg.AtLeast):
+                for p in x.propositions: tag(p)
+            elif key(x.id) in inp["leaf_prio"]:
+                x.prio = inp["leaf_prio"][key(x.id)]
+        tag(o)
     if inp.get("fix_self") is not None and not is_var(o):
         # an object whose own variable was fixed AFTER construction (assume() naming the receiver's own id writes the bounds
         # into the receiver — known finding F-C09a — and is a common way to end up with such an object): whatever state the
@@ -58,6 +85,9 @@ def do_case(ctx, inp):
         ctx.fail("from_b64-raised-on-own-to_b64-output", {"exception": f"{type(e).__name__}: {str(e)[:200]}", "model": t}); return
     if type(o2) is not type(o) or snap(o2) != t or o2.to_text() != o.to_text():
         ctx.fail("proposition-round-trip-differs", {"before": t, "after": snap(o2)}); return
+    if var_sigs(o2) != var_sigs(o):
+        d = [(x, y) for x, y in zip(var_sigs(o), var_sigs(o2)) if x != y][:3]
+        ctx.fail("variable-objects-differ-after-round-trip", {"first_differences_before_after": d}); return
     if o2.to_b64() != s:
         ctx.fail("proposition-b64-not-stable", {}); return
     lv = leaves_of(t)
@@ -86,6 +116,11 @@ def do_case(ctx, inp):
         ctx.fail("from_b64-raised-on-own-to_b64-output", {"exception": f"{type(e).__name__}: {str(e)[:200]}", "polyhedron": full_poly_snap(g)}); return
     if type(g2) is not type(g) or full_poly_snap(g2) != fs:
         ctx.fail("polyhedron-round-trip-differs", {"before": fs, "after": full_poly_snap(g2)}); return
+    vs1 = [[var_sig(v) for v in g.variables], [var_sig(v) for v in g.index]]
+    vs2 = [[var_sig(v) for v in g2.variables], [var_sig(v) for v in g2.index]]
+    if vs1 != vs2:
+        d = [(x, y) for a_, b_ in zip(vs1, vs2) for x, y in zip(a_, b_) if x != y][:3]
+        ctx.fail("polyhedron-variable-objects-differ-after-round-trip", {"first_differences_before_after": d}); return
     # every unpacking is a fresh object: editing one in place must not show in the next unpacking of the same string
     s64 = g.to_b64()
     q1 = pnd.ge_polyhedron_config.from_b64(s64)
@@ -136,6 +171,9 @@ def run(ctx):
             prio = {x: rng.choice([1, -1, 2]) for x in rng.sample(names, min(rng.randint(0, 2), len(names)))}
             case = {"ast": a, "prio": prio}
             if rng.random() < 0.15: case["fix_self"] = rng.choice([1, 1, 0])
+            if names and rng.random() < 0.2:
+                case["leaf_prio"] = {x: rng.choice([-2, -3, -1, 1]) for x in rng.sample(names, min(rng.randint(1, 2), len(names)))}
+                ctx.tags["item-with-a-priority-tag-of-its-own"] += 1
             do_case(ctx, case)
         else:
             a, o, t = gen_valid(rng, ctx.quick, prefix_p=0.15, empty_p=0.04)
